@@ -1893,9 +1893,9 @@ func scriptList(path string, full bool) []scriptDesc {
 	// connection-closed status, and the close completes once the handler has returned; in every tier
 	for _, side := range []string{"S", "C"} {
 		for _, reason := range []string{"handler-running", "call-pending"} {
-			ops := []string{"push", "call"}
+			ops := []string{"push", "call", "setid"}
 			if reason == "handler-running" {
-				ops = append(ops, "handler-push", "handler-call")
+				ops = append(ops, "handler-push", "handler-call", "handler-setid")
 			}
 			for _, f := range ops {
 				out = append(out, scriptDesc{Script: "op-while-close-waits." + reason + "." + f, Kind: "op-while-closing", Order: reason, Frame: f, Side: side})
@@ -2400,11 +2400,20 @@ func runScript(w *world, sd scriptDesc) (vs []viol, inconcl string) {
 				var res []byte
 				ost = x.sess.Call(w.callRoute, []byte("late"), &res).Status()
 			})
-		case "handler-push", "handler-call":
+		case "setid":
+			// an id change while the close is waiting: the closing session must not (re)appear in the index
+			och = run(func() {
+				x.sess.SetID("renamed-while-closing-" + x.name())
+				ost = erpc.NewStatus(erpc.CodeConnClosed, "", "")
+			})
+		case "handler-push", "handler-call", "handler-setid":
 			och = make(chan struct{})
 			f := func(cs erpc.CtxSession) {
 				defer close(och)
-				if sd.Frame == "handler-push" {
+				if sd.Frame == "handler-setid" {
+					x.sess.SetID("renamed-by-its-handler-" + x.name()) // the handler keeps the Session value of its connection
+					ost = erpc.NewStatus(erpc.CodeConnClosed, "", "")
+				} else if sd.Frame == "handler-push" {
 					ost = cs.Push(w.pushRoute, []byte("late-from-handler"))
 				} else {
 					var res []byte
